@@ -19,18 +19,31 @@ class RWInfo(NamedTuple):
     proposal: jax.Array
 
 
+# verification seam: when RECORD["fn"] is set, every (point, log-density) pair the kernel evaluates is handed to it at run time
+# (jax.debug.callback works under jit / vmap / scan, whatever the caller wrapped the kernel in)
+RECORD = {"fn": None}
+
+
+def _record(position, logdensity):
+    if RECORD["fn"] is not None:
+        jax.debug.callback(RECORD["fn"], position, logdensity)
+
+
 class _RMH:
     def __init__(self, logdensity_fn, proposal_fn):
         self.logdensity_fn = logdensity_fn
         self.proposal_fn = proposal_fn
 
     def init(self, position, rng_key=None):
-        return RWState(position, self.logdensity_fn(position))
+        ld = self.logdensity_fn(position)
+        _record(position, ld)
+        return RWState(position, ld)
 
     def step(self, rng_key, state):
         k1, k2 = jax.random.split(rng_key)
         prop = self.proposal_fn(k1, state.position)
         lp = self.logdensity_fn(prop)
+        _record(prop, lp)
         delta = lp - state.logdensity
         delta = jnp.where(jnp.isnan(delta), -jnp.inf, delta)
         accept = jnp.log(jax.random.uniform(k2)) < delta
